@@ -127,6 +127,7 @@ def controlled_env(hashseed=0, extra=None):
     env["VERIF_ENV_OK"] = "1"
     env["PYTHONPATH"] = VERIF + os.pathsep + os.path.join(REPO, "src")
     env["VERIF_REPO"] = REPO
+    env["RUST_BACKTRACE"] = "0"
     env.pop("BASILISP_USE_DEV_LOGGER", None)
     if extra:
         env.update(extra)
